@@ -2,8 +2,11 @@
 // stores of lachesis-base (shared by the C22, C23 and C24 harnesses).
 //
 // A case is   <base> <layer>* ; op ; op ; ...
-//   base:   mem | ldb | pbl            (memorydb, leveldb in a temp dir, pebble in a temp dir)
+//   base:   mem | ldb | pbl            (memorydb, leveldb in a temp dir, pebble in a temp dir;
+//           ldb! / pbl! = a fresh instance opened for this history only and removed afterwards,
+//           ldb / pbl = an instance kept open, wiped and verified empty before the history)
 //   layer:  t<hex> (table.New(x, prefix); "t-" = empty prefix) | f (flushable.Wrap) | s (synced.WrapStore)
+//           | z (flushable.NewLazy whose producer returns the store below)
 //           layers are listed bottom-up; depth 0 is the top of the stack.
 //   handle: <depth>[/<hex>]*           (extra table wrappers created on the fly: table.New(level, p1).NewTable(p2)...)
 //   ops:    put h k v | del h k | get h k | has h k | it h prefix start
@@ -204,15 +207,23 @@ func Teardown() {
 
 // ---------- the stack ----------
 
+type flusher interface {
+	Flush() error
+	DropNotFlushed()
+	NotFlushedPairs() int
+	NotFlushedSizeEst() int
+}
+
 type Stack struct {
 	levels []kvdb.Store // index 0 = top
-	flus   map[int]*flushable.Flushable
+	flus   map[int]flusher
 	rec    *recStore
 	eng    *engine
+	fresh  bool
 }
 
 func Build(header []string) *Stack {
-	s := &Stack{flus: map[int]*flushable.Flushable{}}
+	s := &Stack{flus: map[int]flusher{}}
 	var base kvdb.Store
 	switch header[0] {
 	case "mem":
@@ -220,18 +231,27 @@ func Build(header []string) *Stack {
 	case "ldb", "pbl":
 		s.eng = acquire(header[0])
 		base = s.eng.db
+	case "ldb!", "pbl!": // a fresh instance in its own temp dir, closed and removed after this history
+		s.eng = openEngine(header[0][:3])
+		s.fresh = true
+		base = s.eng.db
 	default:
 		panic("bad base " + header[0])
 	}
 	s.rec = &recStore{Store: base}
 	bottomUp := []kvdb.Store{s.rec}
-	var flus []*flushable.Flushable
+	var flus []flusher
 	flus = append(flus, nil)
 	cur := kvdb.Store(s.rec)
 	for _, l := range header[1:] {
 		switch {
 		case l == "f":
 			f := flushable.Wrap(cur)
+			cur = f
+			flus = append(flus, f)
+		case l == "z":
+			below := cur
+			f := flushable.NewLazy(func() (kvdb.Store, error) { return below, nil }, nil)
 			cur = f
 			flus = append(flus, f)
 		case l == "s":
@@ -258,7 +278,11 @@ func Build(header []string) *Stack {
 
 func (s *Stack) Close() {
 	if s.eng != nil {
-		release(s.eng)
+		if s.fresh {
+			s.eng.close()
+		} else {
+			release(s.eng)
+		}
 	}
 }
 
@@ -301,7 +325,38 @@ func drain(it kvdb.Iterator, max int) (out []string, n int, err error) {
 // Run executes the ops and returns the observation tokens.  stat is called with op kinds and
 // a few behaviour markers.
 func (s *Stack) Run(ops [][]string, stat func(string)) (obs []string) {
-	batches := map[string]kvdb.Batch{}
+	// A batch slot remembers its handle and its operations so that the harness stays total on
+	// arbitrary (e.g. shrunk) histories: an unbound slot behaves as a batch on handle "0", and a
+	// batch touched again after Write without Reset is rebuilt from its recorded operations
+	// (pebble panics with "batch already applied" otherwise; generated histories always Reset).
+	type bslot struct {
+		b       kvdb.Batch
+		h       string
+		ops     [][]string
+		written bool
+	}
+	slots := map[string]*bslot{}
+	slot := func(id string, forWrite bool) *bslot {
+		sl := slots[id]
+		if sl == nil {
+			sl = &bslot{h: "0"}
+			sl.b = s.handle(sl.h).NewBatch()
+			slots[id] = sl
+		}
+		if forWrite && sl.written {
+			stat("batch_rebuilt")
+			sl.b = s.handle(sl.h).NewBatch()
+			for _, o := range sl.ops {
+				if o[0] == "P" {
+					_ = sl.b.Put(Bytes(o[1]), Bytes(o[2]))
+				} else {
+					_ = sl.b.Delete(Bytes(o[1]))
+				}
+			}
+			sl.written = false
+		}
+		return sl
+	}
 	var snaps []kvdb.Snapshot
 	live := map[string]kvdb.Iterator{}
 	defer func() {
@@ -325,6 +380,9 @@ func (s *Stack) Run(ops [][]string, stat func(string)) (obs []string) {
 		stat("op_" + o[0])
 		switch o[0] {
 		case "put":
+			if len(o[3]) > 0 && o[3][0] == '*' {
+				stat("put_big_value")
+			}
 			fail("put", s.handle(o[1]).Put(Bytes(o[2]), Bytes(o[3])))
 		case "del":
 			fail("del", s.handle(o[1]).Delete(Bytes(o[2])))
@@ -357,18 +415,26 @@ func (s *Stack) Run(ops [][]string, stat func(string)) (obs []string) {
 				stat("it_nonempty")
 			}
 		case "bnew":
-			batches[o[1]] = s.handle(o[2]).NewBatch()
+			slots[o[1]] = &bslot{b: s.handle(o[2]).NewBatch(), h: o[2]}
 		case "bput":
-			fail("bput", batches[o[1]].Put(Bytes(o[2]), Bytes(o[3])))
+			sl := slot(o[1], true)
+			fail("bput", sl.b.Put(Bytes(o[2]), Bytes(o[3])))
+			sl.ops = append(sl.ops, []string{"P", o[2], o[3]})
 		case "bdel":
-			fail("bdel", batches[o[1]].Delete(Bytes(o[2])))
+			sl := slot(o[1], true)
+			fail("bdel", sl.b.Delete(Bytes(o[2])))
+			sl.ops = append(sl.ops, []string{"D", o[2]})
 		case "bwrite":
-			fail("bwrite", batches[o[1]].Write())
+			sl := slot(o[1], true)
+			fail("bwrite", sl.b.Write())
+			sl.written = true
 		case "breset":
-			batches[o[1]].Reset()
+			sl := slot(o[1], false)
+			sl.b.Reset()
+			sl.ops, sl.written = nil, false
 		case "brep":
 			r := &recorder{}
-			fail("brep", batches[o[1]].Replay(r))
+			fail("brep", slot(o[1], false).b.Replay(r))
 			n := 0
 			for _, t := range r.out {
 				if t == "P" || t == "D" {
@@ -383,6 +449,9 @@ func (s *Stack) Run(ops [][]string, stat func(string)) (obs []string) {
 			if f := s.flus[d]; f != nil {
 				if f.NotFlushedPairs() > 0 {
 					stat("flush_nonempty")
+				}
+				if f.NotFlushedSizeEst() > kvdb.IdealBatchSize {
+					stat("flush_splits_batch")
 				}
 				fail("flush", f.Flush())
 			}
@@ -433,7 +502,11 @@ func (s *Stack) Run(ops [][]string, stat func(string)) (obs []string) {
 		case "compact":
 			s.rec.lo, s.rec.hi = []byte("unset"), []byte("unset")
 			fail("compact", s.handle(o[1]).Compact(Bytes(o[2]), Bytes(o[3])))
-			obs = append(obs, "C", OTok(s.rec.lo), OTok(s.rec.hi))
+			if string(s.rec.lo) == "unset" && string(s.rec.hi) == "unset" {
+				obs = append(obs, "C", "!", "!") // the request never reached the base
+			} else {
+				obs = append(obs, "C", OTok(s.rec.lo), OTok(s.rec.hi))
+			}
 		case "lit":
 			if old := live[o[1]]; old != nil {
 				old.Release()
